@@ -5,6 +5,7 @@ import (
 	"go/token"
 	"go/types"
 	"regexp"
+	"sort"
 	"strconv"
 	"strings"
 
@@ -484,6 +485,20 @@ func (f *Frame) callResolved(in ssa.Instruction, cc *ssa.CallCommon, fnv SV, arg
 			return f.staticCall(in, fv.Fn, fv.Bind, args, cc, st, g)
 		}
 	}
+	// a function-typed parameter of the function under contract: check its call specification
+	if par, ok := cc.Value.(*ssa.Parameter); ok && f.isRoot && f.contract != nil {
+		for _, cl := range f.contract.CallSpecs[par.Name()] {
+			e := f.specEnv(st, f.entrySt, nil)
+			sig := cc.Signature()
+			for i, a := range args {
+				if i < sig.Params().Len() {
+					e.vars[fmt.Sprintf("p%d", i)] = specVar{sv: a, typ: sig.Params().At(i).Type()}
+				}
+			}
+			e.prove = true
+			c.oblige("callspec", cl.Tags, g, e.boolClause(cl), f.where(in), "guarantee at call of parameter "+par.Name()+": "+cl.Text)
+		}
+	}
 	return f.havocCall(in, "func-value:"+cc.Value.Name(), args, cc, st, g)
 }
 
@@ -804,7 +819,15 @@ func (f *Frame) applyContract(in ssa.Instruction, ct *Contract, fn *ssa.Function
 	}
 	// ghost updates: "ensures" may mention ghost variables in post-state; havoc those the contract lists
 	if gl := ct.Flags["modifies"]; gl != "" {
-		for _, gname := range strings.Fields(strings.ReplaceAll(gl, ",", " ")) {
+		names := strings.Fields(strings.ReplaceAll(gl, ",", " "))
+		if len(names) == 1 && names[0] == "*" {
+			names = nil
+			for gname := range x.S.GhostVars {
+				names = append(names, gname)
+			}
+			sort.Strings(names)
+		}
+		for _, gname := range names {
 			srt, ok := x.S.GhostVars[gname]
 			if !ok {
 				panic(specError{fmt.Sprintf("%s: unknown ghost variable %s", ct.Src, gname)})
